@@ -35,12 +35,41 @@ def classify_abnormal(impl, model):
     if impl.startswith('TIMEOUT') and model.startswith('ABN:cyclic'):
         return 'cyclic-print'
     if impl.startswith('CRASH') and model.startswith('ABN:fuel'):
-        d = describe(impl)
-        if 'stack' in d.get('crash', ''):
+        try:
+            banner = untext(impl.split('\t')[0].split(':')[2])
+        except Exception:
+            banner = ''
+        if 'stack' in banner:
             return 'stack-exhaustion'
     return None
 
-def execute(cases, fuel=30000, timeout_ms=5000, model=True):
+import re as _re
+_PLATFORM = [NAT['sin'], NAT['cos'], NAT['tan'], NAT['pow'], '**']
+_NUM = _re.compile(r'-?\d+(?:\.\d+)?(?:e[+-]?\d+)?')
+
+def platform_sensitive(src):
+    return isinstance(src, str) and any(p in src for p in _PLATFORM)
+
+def approx_same(impl, model, keys):
+    """outputs that differ only in numerals agreeing to 4 ulp (results of the platform's pow/sin/cos/tan)"""
+    a, b = fields(impl), fields(model)
+    if any(a.get(k) != b.get(k) for k in keys if k != 'O') or 'O' not in a or 'O' not in b:
+        return False
+    ta, tb = untext(a['O']), untext(b['O'])
+    na, nb = _NUM.findall(ta), _NUM.findall(tb)
+    if _NUM.sub('#', ta) != _NUM.sub('#', tb) or len(na) != len(nb):
+        return False
+    for x, y in zip(na, nb):
+        if x == y:
+            continue
+        fx, fy = float(x), float(y)
+        if fx == fy:
+            continue
+        if abs(fx - fy) > 1e-12 * max(abs(fx), abs(fy), 1e-3):
+            return False
+    return True
+
+def execute(cases, fuel=8000, timeout_ms=5000, model=True):
     reqs = [c.req for c in cases]
     t0 = time.time()
     impl = run_impl(reqs, timeout_ms=timeout_ms)
@@ -58,6 +87,8 @@ def disagreements(cases):
         if c.model is None:
             continue
         if not same(c.impl, c.model, c.keys):
+            if platform_sensitive(c.src) and not c.impl.startswith(('PANIC', 'CRASH', 'TIMEOUT')) and not c.model.startswith('ABN') and approx_same(c.impl, c.model, c.keys):
+                continue
             out.append(c)
     return out
 
@@ -120,7 +151,7 @@ def _run_one_cli(c, timeout):
         shutil.rmtree(d, ignore_errors=True)
     return c
 
-def execute_cli(cases, timeout=10, fuel=30000, jobs=None):
+def execute_cli(cases, timeout=10, fuel=8000, jobs=None):
     os.makedirs(os.path.join(BUILD, 'tmp'), exist_ok=True)
     t0 = time.time()
     with ThreadPoolExecutor(max_workers=jobs or NCPU) as ex:
@@ -131,7 +162,7 @@ def execute_cli(cases, timeout=10, fuel=30000, jobs=None):
         spec = 'missing'
         if c.script is not None and c.files.get(c.script) is not None:
             spec = 'ok:' + hx(c.files[c.script])
-        reqs.append('cli\t' + hx('\x00'.join(c.args)) + '\t' + hx(c.stdin) + '\t' + spec)
+        reqs.append('cli\t' + hx(''.join('\x01' + a for a in c.args)) + '\t' + hx(c.stdin) + '\t' + spec)
     mod = run_model(reqs, fuel=fuel)
     for c, m in zip(cases, mod):
         c.model = m
